@@ -100,6 +100,13 @@ Theorem C05_grad_checker_sound :
 Proof. exact C05_grad_checkb_sound. Qed.
 Print Assumptions C05_grad_checker_sound.
 
+(* observed logical indices of gradient block k = the index set of parameter block k (any gradient layout) *)
+Theorem C05_grad_values_checker_sound :
+  forall obs_p obs_g, C05_grad_values_checkb obs_p obs_g = true ->
+  Forall2 (fun p g => Permutation (view_offsets p) (snd g) /\ vsizes p = fst g) obs_p obs_g.
+Proof. exact C05_grad_values_checkb_sound. Qed.
+Print Assumptions C05_grad_values_checker_sound.
+
 Theorem C05_update_checker_sound :
   forall bl bases storage, update_okb bl bases storage = true ->
   length (scatter bl (update_dirs bl bases)) = length storage
